@@ -151,7 +151,7 @@ func runJob(bin, tier string, j *job, tmp string) {
 			budget = 300
 		}
 	}
-	ctx, cancel := context.WithTimeout(context.Background(), time.Duration(budget+120)*time.Second)
+	ctx, cancel := context.WithTimeout(context.Background(), time.Duration(2*budget+600)*time.Second)
 	defer cancel()
 	cmd := exec.CommandContext(ctx, bin, "run", "-harness", j.h.Name, "-variant", j.v.Name, "-tier", tier,
 		"-shard", fmt.Sprintf("%d/%d", j.k, j.w), "-budget", strconv.Itoa(budget), "-out", outFile)
